@@ -18,7 +18,17 @@ NAMES = ["PauliX", "PauliY", "PauliZ", "Hadamard", "S", "T", "SX", "RX", "RY", "
          "C_SWAP", "C_ISWAP", "C_SISWAP", "C_RX", "C_RZ", "C_S", "C_Hadamard", "C_IsingZZ", "C_IsingXX", "CC_RY", "C_PhaseShift", "C_T", "C_SX"]
 
 
+NAMES += ["Permute_120", "Permute_102", "Permute_210", "Permute_10"]
+# pairs that go through hand-written special cases of is_commuting: every wire pattern, every run
+PRIORITY = [("CRot", "CRot"), ("Rot", "CRot"), ("CRot", "Rot"), ("U3", "CRot"), ("CRot", "U3"), ("U2", "CRot"), ("Rot", "Rot"), ("U3", "Rot"),
+            ("Permute_120", "Permute_102"), ("Permute_120", "Permute_210"), ("Permute_102", "Permute_120"), ("Permute_120", "Permute_120"),
+            ("Permute_102", "SWAP"), ("SWAP", "Permute_120"), ("Permute_10", "SWAP"), ("SWAP", "Permute_10"), ("CSWAP", "Permute_120"),
+            ("SWAP", "ISWAP"), ("ISWAP", "SISWAP"), ("SWAP", "CSWAP"), ("CSWAP", "CSWAP")]
+
+
 def build(name, params, wires):
+    if name.startswith("Permute_"):
+        return qp.Permute([wires[int(ch)] for ch in name[8:]], wires=wires)
     if name.startswith("MultiRZ"):
         return qp.MultiRZ(params[0], wires=wires)
     if name == "GlobalPhase":
@@ -40,6 +50,8 @@ def arity(name):
         return 1, int(name[-1])
     if name in ("GlobalPhase",):
         return 1, 1
+    if name.startswith("Permute_"):
+        return 0, len(name) - 8
     if name == "Identity":
         return 0, 1
     if name.startswith("CC_"):
@@ -66,11 +78,13 @@ rng.shuffle(pairs)
 npat = 1 if tier == "quick" else 4
 maxpairs = 900 if tier == "quick" else 100000
 count_true = 0
-for (a, b) in pairs[:maxpairs]:
+pairs = [(a, b, True) for a, b in PRIORITY] + [(a, b, False) for a, b in pairs[:maxpairs]]
+for (a, b, prio) in pairs:
     (p1, k1), (p2, k2) = arity(a), arity(b)
     pats = patterns(k1, k2)
-    rng.shuffle(pats)
-    for w2 in pats[:npat]:
+    if not prio:
+        rng.shuffle(pats)
+    for w2 in (pats if prio else pats[:npat]):
         n = len(set(w2) | set(range(k1)))
         if n > 5:
             continue
